@@ -288,6 +288,25 @@ pub fn run(ctx: &Ctx) {
         },
         check_conv,
     );
+    ctx.enumerated(
+        "padded-limits",
+        "conv",
+        7 * 7 * 46 * 56,
+        true,
+        "EXHAUSTIVE: (type limit + d, d in -3..3) x 0..45 appended zeros x independently chosen scale -5..50: boundary integers times powers of ten seen at unrelated scales",
+        |i| {
+            let mut k = i;
+            let scale = (k % 56) as i64 - 5;
+            k /= 56;
+            let z = (k % 46) as u32;
+            k /= 46;
+            let d = (k % 7) as i64 - 3;
+            k /= 7;
+            let int = (limit_of(k as u8) + d) * BigInt::from(10u8).pow(z);
+            Some(Conv { d: D::new(int.to_string(), scale) })
+        },
+        check_conv,
+    );
     let n = t.pick(300_000u64, 3_000_000);
     ctx.generated("near-limits", "conv", n, "LIMIT + {-2..2} + fraction, assorted scales", near_limit_strategy, check_conv);
     ctx.generated("pushed-past-limit", "conv", n, "floor(LIMIT/10^k) (+1) with scale -k, k in 1..25", pushed_strategy, check_conv);
